@@ -59,13 +59,15 @@ Record ms := mkMs {
   m_st0 : N;               (* state when the current event started *)
   m_idknown : bool;        (* a SHIP id is stored now *)
   m_isdef : bool;          (* the current event is CDeferred *)
+  m_lost : bool;           (* a transport error was reported to the connection *)
+  m_cancelled : bool;      (* the user cancelled while the hello phase was waiting (pending or ready listen) *)
   m_viol : N               (* violations so far: bit c is set iff code c was flagged *)
 }.
 #[export] Instance etaMs : Settable _ :=
-  settable! mkMs <m_role; m_granted; m_last; m_term; m_closed; m_ncb; m_setup; m_idknown0; m_shipid; m_idbad; m_st0; m_idknown; m_isdef; m_viol>.
+  settable! mkMs <m_role; m_granted; m_last; m_term; m_closed; m_ncb; m_setup; m_idknown0; m_shipid; m_idbad; m_st0; m_idknown; m_isdef; m_lost; m_cancelled; m_viol>.
 
 Definition init_ms (r : role) (idk : bool) : ms :=
-  mkMs r (match r with Client => true | Server => false end) 0 false false 0 false idk false false 0 idk false 0.
+  mkMs r (match r with Client => true | Server => false end) 0 false false 0 false idk false false 0 idk false false false 0.
 
 Definition flag (code : N) (ok : bool) (m : ms) : ms :=
   if ok then m else m <| m_viol := N.lor (m_viol m) (N.shiftl 1 code) |>.
@@ -75,6 +77,7 @@ Definition sat2 (n : N) : N := if 2 <=? n then 2 else n.
 (* violation codes *)
 Definition V_PROGRESS_UNTRUSTED : N := 10.   Definition V_SETUP_UNTRUSTED : N := 11.
 Definition V_DELIVER_UNTRUSTED : N := 12.
+Definition V_PROGRESS_AFTER_CANCEL : N := 13.
 Definition V_BAD_EDGE : N := 20.             Definition V_PROGRESS_AFTER_TERMINAL : N := 21.
 Definition V_TIMER_AFTER_TERMINAL : N := 22. Definition V_SENT_AFTER_TERMINAL : N := 23.
 Definition V_NOT_CLOSED_AFTER_TERMINAL : N := 24.
@@ -82,6 +85,7 @@ Definition V_PANIC : N := 30.                Definition V_HANG : N := 31.
 Definition V_SETUP_WRONG_ID : N := 40.       Definition V_ID_NOT_REPORTED : N := 41.
 Definition V_ID_REPORTED_AGAIN : N := 42.    Definition V_SETUP_TWICE : N := 43.
 Definition V_END_TWICE : N := 50.            Definition V_END_MISSING : N := 51.
+Definition V_END_NEVER_REPORTED : N := 52.
 Definition V_DELIVER_BEFORE_SETUP : N := 60.
 
 Definition acc_of (e : cev) : option accc :=
@@ -91,6 +95,13 @@ Definition mstep (m : ms) (o : cobs) : ms :=
   match o with
   | BEv e =>
       let m := m <| m_isdef := match ev e with CDeferred => true | _ => false end |> <| m_st0 := m_last m |> in
+      let m := match ev e with CConnErr => m <| m_lost := true |> | _ => m end in
+      (* C01: a cancel while the hello phase is waiting withdraws the trust *)
+      let m := match ev e with
+               | CAbort => if (N.eqb (m_last m) 8 || N.eqb (m_last m) 11) && negb (m_term m)
+                           then m <| m_cancelled := true |> else m
+               | _ => m
+               end in
       (* C01: approval while the request is pending is a grant *)
       let m := match ev e with
                | CApprove => if N.eqb (m_st0 m) 11 then m <| m_granted := true |> else m
@@ -106,6 +117,7 @@ Definition mstep (m : ms) (o : cobs) : ms :=
   | BAllowQ _ => m
   | BReport s _ =>
       let m := flag V_PROGRESS_UNTRUSTED (negb (post_hello s) || m_granted m) m in
+      let m := flag V_PROGRESS_AFTER_CANCEL (negb (post_hello s) || negb (m_cancelled m)) m in
       let m := if N.eqb s (m_last m) then m
                else
                  let m := flag V_BAD_EDGE (edge_ok (m_role m) (m_last m) s || m_term m) m in
@@ -116,7 +128,7 @@ Definition mstep (m : ms) (o : cobs) : ms :=
   | BWrite f ok =>
       if ok then flag V_SENT_AFTER_TERMINAL (negb (m_term m) || closing_frame (m_last m) f) m else m
   | BSetup =>
-      let m := flag V_SETUP_UNTRUSTED (m_granted m) m in
+      let m := flag V_SETUP_UNTRUSTED (m_granted m && negb (m_cancelled m)) m in
       let m := flag V_SETUP_TWICE (negb (m_setup m)) m in
       let m := flag V_SETUP_WRONG_ID (negb (m_idbad m)) m in
       let m := flag V_ID_NOT_REPORTED (m_idknown0 m || m_shipid m) m in
@@ -138,7 +150,11 @@ Definition mstep (m : ms) (o : cobs) : ms :=
       (* at rest *)
       let m := flag V_TIMER_AFTER_TERMINAL (negb (m_term m) || negb armed) m in
       let m := flag V_END_MISSING (negb (m_closed m) || negb (N.eqb (m_ncb m) 0)) m in
-      if m_isdef m then flag V_NOT_CLOSED_AFTER_TERMINAL (negb (m_term m) || m_closed m) m else m
+      if m_isdef m then
+        let m := flag V_NOT_CLOSED_AFTER_TERMINAL (negb (m_term m) || m_closed m) m in
+        (* once the goroutines have run, a lost or ended connection has been reported *)
+        flag V_END_NEVER_REPORTED (negb (m_lost m || m_term m) || negb (N.eqb (m_ncb m) 0)) m
+      else m
   end.
 
 Definition mon_run (m : ms) (tr : list cobs) : ms := fold_left mstep tr m.
@@ -146,7 +162,7 @@ Definition mon_run (m : ms) (tr : list cobs) : ms := fold_left mstep tr m.
 (* violations of one property only: code ranges 10-19 C01, 20-29 C04, 30-39 C08, 40-49 C09,
    50-59 C11, 60-69 C06 *)
 Definition all_codes : list N :=
-  [10;11;12;20;21;22;23;24;30;31;40;41;42;43;50;51;60].
+  [10;11;12;13;20;21;22;23;24;30;31;40;41;42;43;50;51;52;60].
 Definition viol_codes (m : ms) : list N := filter (fun c => N.testbit (m_viol m) c) all_codes.
 Definition viol_in (lo hi : N) (m : ms) : list N :=
   filter (fun c => (lo <=? c) && (c <=? hi)) (viol_codes m).
